@@ -859,3 +859,54 @@ func init() {
 		return p.mkBool(t)
 	}
 }
+
+// strings.ToLower / ToUpper: for a string whose bytes are all ASCII (a solver-decided branch) the
+// result is the per-byte case mapping of the same length; a string with a non-ASCII byte is
+// concretised and handed to the real function (Unicode case tables, invalid UTF-8 replacement).
+func init() {
+	mk := func(lower bool) func(fr *frame, args []value) value {
+		return func(fr *frame, args []value) value {
+			p := fr.i.p
+			ts := p.ts
+			if s, ok := args[0].(string); ok {
+				if lower {
+					return strings.ToLower(s)
+				}
+				return strings.ToUpper(s)
+			}
+			s := p.strOf(args[0])
+			B := p.viewBytes(s)
+			ascii := ts.True
+			for i, b := range B {
+				in := ts.Cmp(OpBvUlt, ts.BV(uint64(i), 64), s.n)
+				ascii = ts.And(ascii, ts.Implies(in, ts.Cmp(OpBvUlt, b, ts.BV(0x80, 8))))
+			}
+			if !p.branch(ascii, "tolower-ascii") {
+				c := p.concretizeString(s)
+				if lower {
+					return strings.ToLower(c)
+				}
+				return strings.ToUpper(c)
+			}
+			lo, hi, d := uint64('A'), uint64('Z'), uint64(0x20)
+			if !lower {
+				lo, hi = 'a', 'z'
+			}
+			R := make([]*Term, len(B))
+			for i, b := range B {
+				isc := ts.And(ts.Cmp(OpBvUle, ts.BV(lo, 8), b), ts.Cmp(OpBvUle, b, ts.BV(hi, 8)))
+				var m *Term
+				if lower {
+					m = ts.BvBin(OpBvAdd, b, ts.BV(d, 8))
+				} else {
+					m = ts.BvBin(OpBvSub, b, ts.BV(d, 8))
+				}
+				R[i] = ts.Ite(isc, m, b)
+			}
+			buf := &symBuf{id: p.newBufID(), name: "case", b: R}
+			return p.mkStr(symStr{buf: buf, off: ts.BV(0, 64), n: s.n, max: s.max})
+		}
+	}
+	exactStubs["strings.ToLower"] = mk(true)
+	exactStubs["strings.ToUpper"] = mk(false)
+}
